@@ -151,6 +151,10 @@ func runC01(ctx *report.Ctx) {
 		walkProgram(ctx, c, "F1-refused", p, stdHost, wr, nil)
 	})
 
+	// RESTORE-TWICE: the flow after a restore is the flow from the entry of the restored node - also after a second restore of
+	// the same save value, made after the dialogue has moved on (C07's exploration on a script with loops, small bounds)
+	restoreExplore(ctx, "RESTORE-TWICE", c07Scripts(true)[2:3], c07Host, c07Bounds{pre: report.Pick(ctx, 2, 4), mid: 0, recv: 1, cont: report.Pick(ctx, 3, 5), keep: true})
+
 	// F1c: one generated node (plus a fixed jump target), one more statement
 	f1csize := report.Pick(ctx, 4, 5)
 	ctx.Bound("F1c", fmt.Sprintf("<=%d statements in one node plus a fixed target node, same alphabet as F1", f1csize))
